@@ -15,7 +15,7 @@ import (
 func init() {
 	register(&property{id: "C19", run: runC19, meta: propMeta{
 		level: "other",
-		explanation: "Decided on the skeleton packages obtained by instantiating the templates (see C08): the emitted scan loop obeys the same protocol as the built-in one (state loop-carried from 0, rune from Next, evaluation only on a dead transition after exactly one Retract or at end of input with a pending lexeme and no Retract, evaluation of the state before the failing step); the skipped terminals are exactly WS, EOL, COMMENT and on a dead transition in the start state the four documented blank characters are discarded; the emitted UTF-8 decoding tables and masks equal those of unicode/utf8; every byte read in Next has its error returned first, the end-of-input latch is only set past the last byte and is undone by Retract, every path of Next keeps the size/column bookkeeping Retract undoes, and every load of a buffer half is guarded by reader state other than the cursor (so re-arrival at a boundary after Retract does not load the next chunk over the one just loaded). " +
+		explanation: "Decided on the skeleton packages obtained by instantiating the templates (see C08): the emitted scan loop obeys the same protocol as the built-in one (state loop-carried from 0, rune from Next, evaluation only on a dead transition after exactly one Retract or at end of input with a pending lexeme and no Retract, evaluation of the state before the failing step); the skipped terminals are exactly WS, EOL, COMMENT and on a dead transition in the start state the four documented blank characters are discarded; the emitted UTF-8 decoding tables and masks equal those of unicode/utf8; every byte read in Next has its error returned first, a buffer half is filled by a fill-or-end read, the end of the input is found by position (not by a sentinel byte value), the forward pointer wraps on every path, the end-of-input latch is only set past the last byte and is undone by Retract, every path of Next keeps the size/column bookkeeping Retract undoes, and every load of a buffer half is guarded by reader state other than the cursor (so re-arrival at a boundary after Retract does not load the next chunk over the one just loaded). " +
 			"Everything that needs the emitted program to run (longest match on inputs, exact lexemes and positions, that the buffer outlasts the longest retraction) is out of reach.",
 		trusted: []string{"the skeleton is what the generator emits (C08 obligations)", "unicode/utf8 tables of the toolchain"},
 		assumptions: []string{"witness instantiation 'simple' is representative of the template's fixed code: holes only affect the two table functions"},
